@@ -147,3 +147,22 @@ Qed.
 Theorem gen_err_of_bind_group_data m src inc o e :
   get_bind_group_data m = Err e -> gen m src inc o = Err e.
 Proof. unfold gen. intros ->. reflexivity. Qed.
+
+(** the only typed errors of [get_bind_group_data] (hence of [gen]) are its own two *)
+Lemma build_err_kind m gs : forall h acc e, build m gs h acc = Err e -> exists b, e = DuplicateBinding b.
+Proof.
+  induction gs as [|g t IH]; intros h acc e H; cbn [build] in H; [discriminate|].
+  destruct (g_binding g) as [[grp b]|]; [|eapply IH; exact H].
+  destruct (get_ty m (g_ty g)); [|discriminate].
+  destruct (add grp _ acc); [eapply IH; exact H|]. inversion H. eauto.
+Qed.
+
+Theorem gen_err_kind m src inc o e :
+  gen m src inc o = Err e -> e = NonConsecutiveBindGroups \/ exists b, e = DuplicateBinding b.
+Proof.
+  intros H. apply gen_err_only_from_bind_group_data in H. unfold get_bind_group_data in H.
+  destruct (build m (globals m) 0 []) as [gs|e'|w] eqn:E; cbn in H.
+  - destruct (keys_consecutive gs); inversion H. auto.
+  - inversion H; subst. right. eapply build_err_kind; eauto.
+  - discriminate.
+Qed.
